@@ -565,6 +565,10 @@ HUGE_FLOAT_PROGRAMS = [
      "    let o = new { peak: ?12345678900000000000000000.0, counts: [602214076000000000000000.0, 1500000000000000000000.0, 2.5], unit: \"1/mol\" };\n"
      "    let ob: { peak: ?float, counts: [float], unit: str } = o.to_json().parse_json();\n    println(ob == o, o == ob, ob.counts[0] == o.counts[0], ob.peak == o.peak);\n}",
      "true true\ntrue true true true\n"),
+    # the JSON text of strings with HTML-sensitive characters is the same on both runtimes and in both members
+    ("fn main() {\n    let l = [\"a < b && c > d\", \"</script>\"];\n    println(l.to_json());\n    let o = new { k: \"<&>\", n: [\"x>y\"] };\n    println(o.to_json());\n"
+     "    println(l.to_json() == l.to_json_indent().replace(\"\\n\", \"\").replace(\"    \", \"\"));\n    let back: [str] = l.to_json().parse_json();\n    println(back == l);\n}",
+     "[\"a \\u003c b \\u0026\\u0026 c \\u003e d\",\"\\u003c/script\\u003e\"]\n{\"k\":\"\\u003c\\u0026\\u003e\",\"n\":[\"x\\u003ey\"]}\ntrue\ntrue\n"),
 ]
 
 
